@@ -64,25 +64,35 @@ def c04_strip(text):
 
 
 def compare(base, other, V, sig, what):
-    """equal except: a time column / lifespan may differ by one unit of the last digit; separators whose printed gap
-    is 1.0000 (the exact-threshold don't-care) may be present on one side only"""
-    def drop_boundary_seps(sk):
-        return [x for x in sk if not (x[0] == 'sep' and abs(x[2] - 1.0) < 1.5e-4)]
-    a = drop_boundary_seps(base)
-    b = drop_boundary_seps(other)
-    if len(a) != len(b):
-        V.add(sig, what, 'outputs differ in length: %d vs %d items; first difference: %r' % (len(a), len(b), first_diff(a, b)))
+    """equal except: a time column / lifespan / separator value may differ by one unit of the last digit; a separator
+    may be present on one side only when it sits on the exact one-second threshold (printed 1.0000 or 1.0001: the
+    don't-care of an exactly 1 000 000 us gap)"""
+    i = j = 0
+    a, b = base, other
+    while i < len(a) or j < len(b):
+        x = a[i] if i < len(a) else None
+        y = b[j] if j < len(b) else None
+        if x is not None and y is not None and x[0] == y[0]:
+            if x[1] != y[1]:
+                V.add(sig, what, 'outputs differ: %r vs %r' % (x, y))
+                return
+            if x[2] is not None and abs(x[2] - y[2]) > 1.0001e-4:
+                V.add(sig, what, 'displayed time differs by more than the last digit: %r vs %r' % (x, y))
+                return
+            if (x[3] is None) != (y[3] is None) or (x[3] is not None and abs(x[3] - y[3]) > 1.0001e-4):
+                V.add(sig, what, 'lifespan differs: %r vs %r' % (x, y))
+                return
+            i += 1
+            j += 1
+            continue
+        if x is not None and x[0] == 'sep' and x[2] <= 1.0 + 1.5e-4:
+            i += 1
+            continue
+        if y is not None and y[0] == 'sep' and y[2] <= 1.0 + 1.5e-4:
+            j += 1
+            continue
+        V.add(sig, what, 'outputs differ at item %d/%d: %r vs %r' % (i, j, x, y))
         return
-    for x, y in zip(a, b):
-        if x[0] != y[0] or x[1] != y[1]:
-            V.add(sig, what, 'outputs differ: %r vs %r' % (x, y))
-            return
-        if x[2] is not None and abs(x[2] - y[2]) > 1.0001e-4:
-            V.add(sig, what, 'displayed time differs by more than the last digit: %r vs %r' % (x, y))
-            return
-        if (x[3] is None) != (y[3] is None) or (x[3] is not None and abs(x[3] - y[3]) > 1.0001e-4):
-            V.add(sig, what, 'lifespan differs: %r vs %r' % (x, y))
-            return
 
 
 def first_diff(a, b):
@@ -161,7 +171,17 @@ def judge_times(sc, st, res, metas, V):
                 elif last_live is None and seps and not unchecked_next:
                     V.add('C16/separator-spurious', 'first', 'separator before the first shown message')
                 elif unchecked_next:
+                    # a non-empty listing lies between this live message and the previous one: the statement does not say
+                    # whether the two still count as "shown one after the other". No separator is always fine; a separator is
+                    # tolerated only under that reading (gap between the two *live* messages, > 1 s); anything else - e.g. a
+                    # gap measured from the last *listed* line - is a separator "elsewhere"
                     V.bump('dontcare_live_pair_split_by_listing')
+                    if seps:
+                        gap = None if last_live is None else cl.t_us - last_live.t_us
+                        if gap is None or gap <= 1000000 or abs(seps[-1].time - gap / 1e6) > TOL:
+                            V.add('C16/separator-spurious', 'after-listing',
+                                  'separator %r between a listing and the next live message %s (previous live message: %s)'
+                                  % (seps[-1].text, cl.brief(), None if last_live is None else last_live.brief()))
                 last_live = cl
                 unchecked_next = False
             elif any(o.kind == 'sep' for o in outs) and not shown:
